@@ -194,6 +194,41 @@ def one_case(ctx: Ctx, stream: str, i: int, max_nside: int) -> None:
                          {**cfg, 'map_dtype': 'float16' if ndt == jnp.float16 else 'bfloat16', 'nside_narrow': nside_n})
             ctx.count('narrow-map:' + ('float16' if ndt == jnp.float16 else 'bfloat16'))
 
+    # ---- a sibling landscape in the same process: same dtype and the same number of stored values
+    # (len(stokes)·12·nside²) at ANOTHER resolution, same pointing shapes — each must be read at its own resolution
+    sib = {'IQUV': ('I', 2 * nside), 'I': ('IQUV', nside // 2) if nside >= 2 else None}.get(kind)
+    if sib is not None and sib[1] <= 32:
+        skind, snside = sib
+        sland = HealpixLandscape(snside, skind, dt)
+        st_s, sproj = safe(create_projection_operator, sland, samp, dets)
+        if st_s != 'ok':
+            ctx.fail(stream, i, f'projection-ctor-raises:{st_s}:sibling', str(sproj)[:200], cfg)
+        else:
+            snpix = 12 * snside * snside
+            scls = StokesPyTree.class_for(skind)
+            smap = scls(*[jnp.asarray(np.arange(snpix, dtype=np.float64) + 1, dtype=dt) for _ in skind])
+            st_s, stod = safe(sproj.mv, smap)
+            if st_s != 'ok':
+                ctx.fail(stream, i, f'projection-mv-raises:{st_s}:sibling', str(stod)[:200], cfg)
+            else:
+                gotp = np.asarray(stod.i, dtype=np.float64).reshape(vecs.shape[:3] if ndir > 1 else (ndet, nsamp)) - 1
+                nbad = 0
+                for idx3 in np.ndindex(vecs.shape[:3]):
+                    v = vecs[idx3]
+                    p0 = hp.vec2pix(snside, *v)
+                    th, ph = hp.vec2ang(v)
+                    robust = all(hp.ang2pix(snside, float(np.clip(th[0] + dth, 0, np.pi)), float(ph[0] + dph)) == p0
+                                 for dth, dph in ((1e-4, 0), (-1e-4, 0), (0, 1e-4), (0, -1e-4)))
+                    g = gotp[idx3] if ndir > 1 else gotp[idx3[0], idx3[2]]
+                    if robust and int(round(g)) != p0:
+                        nbad += 1
+                if nbad:
+                    ctx.fail(stream, i, 'projection-wrong-pixel:sibling-landscape',
+                             f'HealpixLandscape({snside}, {skind!r}) used after HealpixLandscape({nside}, {kind!r}) in the same '
+                             f'process: {nbad} of {gotp.size} detector-samples read another pixel than the pointing model says',
+                             {**cfg, 'sibling': [skind, snside]})
+            ctx.count('sibling-landscape')
+
     # ---- acquisition (only defined for one direction per detector: tod shape (ndet, nsamp)) -------------------
     if ndir == 1:
         st, acq = safe(create_acquisition, land, samp, dets)
